@@ -363,7 +363,22 @@ async fn run_callers(group: Arc<Group<u64, u64>>, specs: Vec<(usize, CallerSpec)
         handles.push(tokio::spawn(fut));
     }
     let aborts: Vec<_> = handles.iter().map(|h| h.abort_handle()).collect();
-    match tokio::time::timeout(DEADLINE, join_all(handles)).await {
+    // a caller counts as stuck only when a whole DEADLINE passes without any new event being logged (a loaded machine is
+    // slow, not stuck); at most 10 such extensions
+    let mut all = Box::pin(join_all(handles));
+    let mut waited = None;
+    let mut seen_events = usize::MAX;
+    for _ in 0..10 {
+        match tokio::time::timeout(DEADLINE, &mut all).await {
+            Ok(rs) => { waited = Some(rs); break; }
+            Err(_) => {
+                let now = SH.lock().unwrap().as_ref().map(|s| s.events.len()).unwrap_or(0);
+                if now == seen_events { break; }
+                seen_events = now;
+            }
+        }
+    }
+    match waited.ok_or(()) {
         Ok(rs) => {
             let mut panicked = false;
             let out = specs.iter().zip(rs).map(|((c, _), r)| match r {
